@@ -139,6 +139,43 @@ func c20(c *an.Ctx) {
 				for v := range fails.Vs() {
 					cut[v] = true
 				}
+				// a helper of the package that itself appends / converts / fails on every path counts as an emission
+				for id, v := range g.G.Vs {
+					if v.Node == nil {
+						continue
+					}
+					ast.Inspect(v.Node, func(m ast.Node) bool {
+						ce, ok := m.(*ast.CallExpr)
+						if !ok {
+							return true
+						}
+						cal := an.Callee(g.Info, ce)
+						if cal == nil || cal.Pkg() != g.Pkg.Types {
+							return true
+						}
+						src := c.P.Src(cal)
+						if src == nil || src.Decl.Body == nil {
+							return true
+						}
+						hf := c.P.Fn(src)
+						if hf == nil {
+							return true
+						}
+						hcut := an.Union(hf.Find(an.MStore("kc.rpn = append(…)", rpnF, nil)), hf.Find(call(r, S+":KeyConditionImpl.genRPNElementByVal"))).Vs()
+						if len(hcut) == 0 {
+							return true
+						}
+						for hv := range hf.Find(an.MReturn("return err", func(h *an.Fn, rs *ast.ReturnStmt) bool {
+							return len(rs.Results) == 1 && !an.IsNilIdent(h.Info, rs.Results[0])
+						})).Vs() {
+							hcut[hv] = true
+						}
+						if hf.FPath([]int{hf.G.Entry}, hf.G.Exit, hcut, nil) == nil {
+							cut[id] = true
+						}
+						return true
+					})
+				}
 				if p := g.FPath([]int{g.G.Entry}, g.G.Exit, cut, nil); p != nil {
 					r.Fail(f.Name+": atom without element", c.P.Pos(body[0].Pos()), "a path through `case *influxql.VarRef` neither appends an element nor calls genRPNElementByVal nor fails: %s — the following AND/OR loses an operand", g.DescribePath(p))
 				}
